@@ -13,6 +13,8 @@
  *   alltoall count dt | gather count root dt | scatter count root dt | allgather count dt
  *   alltoallv dt s_0..s_{n-1} r_0..r_{n-1} | gatherv root dt c_0..c_{n-1} | scatterv root dt c_0..c_{n-1}
  *   allgatherv dt c_0..c_{n-1} | reducescatter dt c_0..c_{n-1} | reducescatterblock count dt
+ *   gatherz count root dt | scatterz count root dt   (same, but the ranks other than the root pass 0 for the
+ *   count that MPI declares significant only at the root)
  *   sleep usec | compute flops
  */
 #include <mpi.h>
@@ -203,16 +205,18 @@ int main(int argc, char** argv)
       MPI_Alltoall(sb, a[0], dt_of(a[1]), rb, a[0], dt_of(a[1]), MPI_COMM_WORLD);
       free(sb);
       free(rb);
-    } else if (!strcmp(op, "gather")) {
+    } else if (!strcmp(op, "gather") || !strcmp(op, "gatherz")) {
       void* sb = buf(a[0] * sz_of(a[2]));
       void* rb = buf(a[0] * sz_of(a[2]) * np);
-      MPI_Gather(sb, a[0], dt_of(a[2]), rb, a[0], dt_of(a[2]), a[1], MPI_COMM_WORLD);
+      int rc   = (op[6] == 'z' && me != a[1]) ? 0 : a[0];
+      MPI_Gather(sb, a[0], dt_of(a[2]), rb, rc, dt_of(a[2]), a[1], MPI_COMM_WORLD);
       free(sb);
       free(rb);
-    } else if (!strcmp(op, "scatter")) {
+    } else if (!strcmp(op, "scatter") || !strcmp(op, "scatterz")) {
       void* sb = buf(a[0] * sz_of(a[2]) * np);
       void* rb = buf(a[0] * sz_of(a[2]));
-      MPI_Scatter(sb, a[0], dt_of(a[2]), rb, a[0], dt_of(a[2]), a[1], MPI_COMM_WORLD);
+      int sc   = (op[7] == 'z' && me != a[1]) ? 0 : a[0];
+      MPI_Scatter(sb, sc, dt_of(a[2]), rb, a[0], dt_of(a[2]), a[1], MPI_COMM_WORLD);
       free(sb);
       free(rb);
     } else if (!strcmp(op, "allgather")) {
